@@ -664,7 +664,7 @@ fn dup_generation(rng: &mut Rng, img: &mut Vec<u8>, version: u32, now: u64) -> b
     img[o..o + BS].copy_from_slice(&src);
     let kl = u16::from_le_bytes([src[4], src[5]]) as usize;
     let ts = u64::from_le_bytes(src[14 + kl..22 + kl].try_into().unwrap());
-    let nts = if rng.chance(1, 8) { ts } else if rng.chance(2, 3) { ts.saturating_add(rng.range(1, 9)) } else { ts.saturating_sub(rng.range(1, 9)) };
+    let nts = if rng.chance(1, 8) || FORCE_TIE.load(std::sync::atomic::Ordering::Relaxed) { ts } else if rng.chance(2, 3) { ts.saturating_add(rng.range(1, 9)) } else { ts.saturating_sub(rng.range(1, 9)) };
     img[o + 14 + kl..o + 22 + kl].copy_from_slice(&nts.to_le_bytes());
     if version >= 2 {
         let e = match rng.below(4) { 0 => 0u64, 1 | 2 => now.saturating_sub(rng.range(1, 3_000_000_000)), _ => now.saturating_add(1_000_000_000_000) };
@@ -1169,6 +1169,9 @@ fn sec_reccut(s: &mut Sink, rng: &mut Rng, workloads: usize, mutations: usize, o
 }
 
 static DUPGEN_ONLY: std::sync::atomic::AtomicBool = std::sync::atomic::AtomicBool::new(false);
+/// the second generation made by `dup_generation` carries the *same* timestamp as the first (the tie rule of
+/// recovery - the later extent wins - is then what decides the key's value)
+static FORCE_TIE: std::sync::atomic::AtomicBool = std::sync::atomic::AtomicBool::new(false);
 static RECOVER_ORACLE: std::sync::Mutex<Vec<String>> = std::sync::Mutex::new(Vec::new());
 
 /// C12 on a recovered device: the version clock of every key's shard is at or above the timestamp
@@ -1389,6 +1392,16 @@ fn sec_migrate(s: &mut Sink, rng: &mut Rng, workloads: usize, oracle: &mut Vec<S
         let mut kind = "clean";
         if rng.chance(1, 2) {
             kind = mutate_image(rng, &mut img, version);
+        }
+        if rng.chance(1, 3) {
+            // a source that a crash left with two generations of a key (between a replacement's commit and the old
+            // extent's retirement), half of the time with equal timestamps: what the copy must hold is what a recovery
+            // of the source exposes, not merely some generation of each key
+            FORCE_TIE.store(rng.chance(1, 2), std::sync::atomic::Ordering::Relaxed);
+            if dup_generation(rng, &mut img, version, now) {
+                kind = if FORCE_TIE.load(std::sync::atomic::Ordering::Relaxed) { "dup-generation-tie" } else { "dup-generation" };
+            }
+            FORCE_TIE.store(false, std::sync::atomic::Ordering::Relaxed);
         }
         if rng.chance(1, 3) {
             // a crashed source: an ACTIVE intent journal (extents in allocation order, i.e. not sorted)
